@@ -136,6 +136,9 @@ def check(chk, fx):
     # structural rules of the table construction are necessary conditions of this property as well
     from .. import lr
     lr.all_table_rules(chk, fx)
+    # with a cstring_buffer the stacks are fixed arrays: recovery "fails exactly when ..." only if its pushes fit
+    from .. import caprules
+    caprules.cap_s(chk, fx, only=("initial state", "shift", "shift_recovery_token"))
 
 
 def modes(chk, fx, tables):
